@@ -20,17 +20,17 @@ CHECKS = {
         "DESIGN.md section 2 / C07",
     ),
     "C13": (
-        "proptest sequences of builder calls + exhaustive singles/boolean pairs; round-trip (b1 -> flags -> b2 -> flags') and differential generate(b1) vs generate(b2), flag vs method",
+        "proptest sequences of builder calls + exhaustive singles/boolean pairs; round-trip (b1 -> flags -> b2 -> flags') and differential generate(b1) vs generate(b2), flag vs method, and a metamorphic equivalent-spelling relation for the CLI-only custom-derive flags",
         "exploration",
-        "Each configuration is built from a table of all CLI-expressible Builder methods (checked against options/mod.rs at run time), converted to flags, parsed back in an isolated worker (clap's exit is an outcome), converted again and both builders generate bindings for a feature-triggering C or C++ header: flag lists must be equal as lists and bindings byte-identical; every table row's documented flag must equal its method in flags and bindings. Singles are exhaustive over enumerated values; pairs and random sequences explore interactions.",
+        "Each configuration is built from a table of all CLI-expressible Builder methods (checked against options/mod.rs at run time), converted to flags, parsed back in an isolated worker (clap's exit is an outcome), converted again and both builders generate bindings for a feature-triggering C or C++ header: flag lists must be equal as lists and bindings byte-identical; every table row's documented flag must equal its method in flags and bindings; for the CLI-only REGEX=DERIVES flags (no builder method) a regex alternative containing '=' must have the same effect as the spelling without it. Singles are exhaustive over enumerated values; pairs and random sequences explore interactions.",
         "Two fixed input headers; string arguments come from fixed pools (names, regexes, awkward strings, leading dashes); methods that cannot be expressed on the CLI by design are excluded and listed in evidence.",
         "DESIGN.md section 2 / C13",
     ),
     "C14": (
         "exhaustive enumeration of (target spelling, edition) x trigger headers against an independent feature table, plus proptest spot pairs for shrinking",
         "exploration",
-        "Every selectable target spelling (1.51 .. newest+2, patch levels, -beta, -nightly, nightly) x every edition x 8 trigger headers is generated in-process and scanned for each gated construct; presence is compared with an independent introduction table (both directions), monotonicity, ABI omission, edition rejection and default-target equivalence are checked. The space is finite and enumerated completely, which is the right level for a table-driven feature gate.",
-        "Trusts the harness's feature table and token-pattern recognisers; only the 8 trigger headers exercise the gates.",
+        "Every selectable target spelling (1.51 .. newest+2, patch levels, -beta, -nightly, nightly) x every edition x 10 trigger headers is generated in-process and scanned for each gated construct; presence is compared with an independent introduction table (both directions), monotonicity, ABI omission, edition rejection and default-target equivalence are checked. The space is finite and enumerated completely, which is the right level for a table-driven feature gate.",
+        "Trusts the harness's feature table and token-pattern recognisers; only the 10 trigger headers exercise the gates.",
         "DESIGN.md section 2 / C14",
     ),
 }
